@@ -95,6 +95,13 @@ pub fn enum_mgu(seed: u64) -> Vec<String> {
     for ss in &priors { for a in &ts { for b in &ts {
         if ss.is_empty() || rng.below(3) == 0 { out.push(format!("ss={};a={};b={}", ser_ss(ss), ser(a), ser(b))); }
     } } }
+    // seeded random pairs over five variables with random (cycle-free) prior bindings
+    for _ in 0..400 {
+        let ss = rand_ss(&mut rng, 5, false);
+        let a = rand_term(&mut rng, 2, 5, true);
+        let b = if rng.below(4) == 0 { a.clone() } else { rand_term(&mut rng, 2, 5, true) };
+        out.push(format!("ss={};a={};b={}", ser_ss(&ss), ser(&a), ser(&b)));
+    }
     out
 }
 
